@@ -10,7 +10,7 @@ NOTES = 'Exit codes of ./check: 0 all obligations discharged; 1 VIOLATION (defin
 PENDING = 'check not built yet in this session (planned in DESIGN.md section 5)'
 NOT_APPLICABLE = {
     'C06': PENDING, 
-    'C16': PENDING, 
+    
     'C11': 'numerical accuracy of a 1000-bin f32 convolution against an exact enumeration over K^M words: floats are uninterpreted in Verus and the convolution is out of reach of CBMC; no contract within reach expresses or decides it (DESIGN.md 5/C11)',
     'C12': 'HashMap<i64,f64> dynamic programming bounded by exact tail probabilities of the true score distribution: a protocol-level real-number argument (TFM-PVALUE paper), not expressible over the real code with Verus (opaque floats, no HashMap iteration specs) or Kani (unbounded loops over float maps) (DESIGN.md 5/C12)',
     'C13': 'same algorithm and obstacle as C12 (score thresholds from the same f64 HashMap recurrences) (DESIGN.md 5/C13)',
@@ -18,6 +18,12 @@ NOT_APPLICABLE = {
 }
 
 CHECKS = {
+    'C16': {
+        'text': 'Unbounded deductive proof (Verus) on the verbatim bodies of BitVec::{test,set,unset,count,len}, Sampler::{exclude_sequence, include_sequence} and Iterator::next for Sampler: the representation invariant "motif count matrix = counts of the width-long windows at the starts of the active sequences; background counts = symbol counts of those sequences outside their windows; every start leaves the window inside its sequence; active.count is the number of active sequences" is preserved by every update from an arbitrary state satisfying it (hence at every step of every run, by induction), including all u32/usize underflow/overflow obligations (which depend on the order of the two background loops); next() reports the counts of the alignment without the held-out sequence. Random draws and the float scoring step enter through assumed contracts.',
+        'design_ref': 'DESIGN.md section 5, C16',
+        'note': 'Trusted: Verus/Z3; rand contracts (A-R1/2), prepare_pssm (A-F9), establishment of the invariant by _new / SamplerData::new (not extractable: iterator chains + rand). Determinism clause: argued, not proved.',
+        'technique': 'contract-based deductive verification (Verus, real bodies extracted per run): representation invariant + frame conditions',
+    },
     'C14': {
         'text': 'Partial (reader layer of two of the four formats): unbounded deductive proof (Verus) of jaspar::Reader::{new, next} and jaspar16::Reader::{new, next} on their verbatim bodies against an abstract pending-text state: a successful next() hands the parser a prefix of the pending text and removes exactly the consumed prefix, so records are cut from consecutive gap-free slices of the file in order, independently of stream chunking (by the assumed contract of read_until) and of buffer compaction. Grammars (nom), transfac/uniprobe readers and matrix filling are NOT proved; they are exercised by the native sweep (all four formats, generated files with 1..120 records, 8 buffer capacities) in the thorough tier.',
         'design_ref': 'DESIGN.md section 5, C14',
